@@ -177,9 +177,11 @@ fn convert_dockerignore_glob(glob: &str, file_path: &Path) -> Result<Regex, Erro
     let path = file_path.to_string_lossy().to_string();
 
     // a pattern matches whole path components: `*.o` must not match `a.obj`
-    pattern = path
-        .replace("\\", "\\\\")
-        .add("/([^/]+/)*")
+    // patterns are relative to the directory of the .dockerignore file (the build context root);
+    // only `**` spans directories
+    pattern = String::from("^")
+        .add(&regex::escape(&path))
+        .add("/")
         .add(&pattern)
         .add("(/|$)");
 
